@@ -23,7 +23,9 @@ CHECKS = {
                      "external loop callbacks at seeded cycles and ready-queue positions, biased to the hand-off "
                      "cycle. Every observation (acquire outcome, locked(), statistics()) must be explained by at "
                      "least one state of an independent FIFO grant-time automaton; mutual exclusion, owner-only "
-                     "release, no re-acquire and the unlocked end state are checked directly. Exploration level: "
+                     "release, no re-acquire, statistics().owner and the unlocked end state are checked directly. "
+                     "30% of the cases also cancel whole tasks natively (asyncio Task.cancel()), which reaches a waiter "
+                     "that has already been handed the lock. Exploration level: "
                      "sampling of programs x schedules, replayable and minimised on failure."),
     "C10": dict(engine="sync-permits", ref="4 (Engine SYNC, C10)",
                 technique="deterministic simulation: seeded virtual-time asyncio loop + seeded cancel/resize fault "
@@ -31,7 +33,8 @@ CHECKS = {
                 text="Seeded search over Semaphore / CapacityLimiter programs (initial values 0-3, max_value, "
                      "totals 0,1,2,3,inf; acquire, acquire_nowait, on-behalf-of variants, extra releases, "
                      "total_tokens assignments raising / lowering below the number borrowed / raising again) with "
-                     "cancellation of waiters at seeded cycles. value / borrowed_tokens / available_tokens / "
+                     "cancellation of waiters at seeded cycles (30% of the cases also by native Task.cancel() of whole "
+                     "tasks, also after a grant and inside the checkpoint of an uncontended acquire). value / borrowed_tokens / available_tokens / "
                      "statistics() are compared with the automaton at every history record; a grant that no "
                      "automaton state explains is an over-grant or an overtaking; end state must be the initial "
                      "one. Exploration level."),
@@ -93,7 +96,8 @@ CHECKS["C11"] = dict(engine="sync-conditions", ref="4 (Engine SYNC, C11)",
          "non-holders and earlier holders). A normal return from wait() must be explained by a token in some automaton "
          "state, statistics().tasks_waiting must match (lost / duplicated notifications, phantom waiters), wait() must "
          "come back holding the lock even when cancelled; Event.wait returns only after set(), within 3 cycles, and "
-         "the event stays set. Exploration level.")
+         "the event stays set. 30% of the cases also cancel whole waiter tasks natively (Task.cancel()), except while "
+         "wait() may be in its shielded lock re-acquisition. Exploration level.")
 
 CHECKS["C08"] = dict(engine="sync-checkpoints", ref="4 (Engine SYNC, C08)", level="exploration",
     technique="deterministic simulation used as observation instrument: complete enumeration of the operation x "
@@ -103,7 +107,7 @@ CHECKS["C08"] = dict(engine="sync-checkpoints", ref="4 (Engine SYNC, C08)", leve
          "immediately-completable states each, 10 scope configurations, stock/eager) is executed on the simulated loop: "
          "in an effectively cancelled scope (cancelled, cancelled outer, shielded-and-cancelled, past deadline, "
          "cancelled group, cancelled before entry) the call must raise the cancellation exception and leave the object "
-         "unchanged; otherwise (incl. inside a shield within a cancelled scope) it must complete and a callback queued "
+         "unchanged - also transiently: its state is sampled after every loop cycle while the call is in progress; otherwise (incl. inside a shield within a cancelled scope) it must complete and a callback queued "
          "just before the call must have run before it returns. The table is covered completely on every run "
          "(exhaustive: true); repetitions vary the bystander load.")
 
@@ -116,7 +120,9 @@ CHECKS["C12"] = dict(_mem, ref="4 (Engine MEM, C12)",
          "Oracles: every accepted item is received exactly once or still buffered; nothing invented or duplicated; an item "
          "whose send was cancelled is delivered at most once; per-sender order at every receiver; blocked parties served in "
          "waiting order (judged at grant time); buffer never above max_buffer_size; no item stranded while live receivers "
-         "wait. Exploration level.")
+         "wait (also receivers behind a shield inside a cancelled scope). 30% of the cases also cancel whole tasks "
+         "natively: senders at any time, receivers while provably still queued; the native cancellation of a receiver after "
+         "the hand-over is the directed fault of known finding F17. Exploration level.")
 CHECKS["C13"] = dict(_mem, ref="4 (Engine MEM, C13)",
     text="Same engine biased to clone()/close() histories. Oracles against the model's clone sets: EndOfStream only when all "
          "send clones are closed and nothing is buffered or pending; BrokenResourceError only when all receive clones are "
@@ -173,11 +179,12 @@ CHECKS["C17"] = dict(engine="bytes-tls", ref="4 (Engine BYTES, C17)",
               "fragmentation, coalescing, delays, truncation offset and bit flips are seeded; per-direction byte-stream and "
               "end-of-stream classification oracles",
     text="Real CPython ssl (TLS 1.2 and 1.3) and real TLSStream on both ends of an in-memory Wire pair. Seeded message-size "
-         "sequences (0 bytes to several records), receive sizes from 1 byte, simplex and full-duplex workloads, per-direction "
+         "sequences (0 bytes to 70 000 / 140 000 bytes, i.e. more than 64 KiB of ciphertext in one flush), receive sizes from 1 byte, "
+         "simplex and full-duplex workloads, writers that close at once or stay idle until the peer has read everything, per-direction "
          "re-chunking from 1-byte fragments to full coalescing, and a fault: truncation at a seeded ciphertext offset (within "
          "the handshake, mid-record, between records, 1..60 bytes before the end) or one flipped bit. Oracles: bytes read are a "
          "prefix of bytes written (equal when clean); 1 <= len(chunk) <= max_bytes; clean close => EndOfStream; truncation => "
-         "BrokenResourceError when standard_compatible, EndOfStream otherwise, never the other way round; with a bit flip never "
+         "BrokenResourceError when standard_compatible (also on the receive() calls that follow the first report), EndOfStream otherwise, never the other way round; with a bit flip never "
          "wrong plaintext; no hang. Exploration level.")
 
 CHECKS["C18"] = dict(engine="bytes-sockets", ref="4 (Engine BYTES, C18)",
@@ -195,7 +202,8 @@ CHECKS["C18"] = dict(engine="bytes-sockets", ref="4 (Engine BYTES, C18)",
 
 CHECKS["C14"] = dict(engine="threads-to_thread", ref="4 (Engine THREADS, C14)",
     technique="deterministic simulation of real threads: baton-passing scheduler (one managed thread runs at a time, seeded "
-              "choice at every yield point) + virtual-time loop, with cancellations injected while thread functions run",
+              "choice at every yield point and, in 40% of the cases, at sys.settrace line events inside anyio's "
+              "thread-crossing code) + virtual-time loop, with cancellations injected while thread functions run",
     text="Real anyio worker threads, limiter and from_thread call-backs; blocking in queue.get / Future.result replaced by "
          "predicate parks so that a seeded scheduler owns every interleaving and detects 'all threads parked' as a deadlock. "
          "1-6 caller tasks x 1-2 run_sync calls (limiter 1/2/3/default, abandon_on_cancel on/off, three scope shapes), a timer "
@@ -204,21 +212,25 @@ CHECKS["C14"] = dict(engine="threads-to_thread", ref="4 (Engine THREADS, C14)",
          "non-abandoned calls <= limiter total and tokens returned on every path, without abandon the result is delivered and "
          "the pending cancellation hits the next checkpoint (shield respected), with abandon the caller is released within 4 "
          "cycles, check_cancelled() raises iff the host's scope chain is effectively cancelled at that instant, call-backs "
-         "return the right value or are cancelled with the host, and everything terminates (deadlock / busy loop detection). "
-         "Exploration level.")
+         "return the right value or are cancelled with the host, a caller cancelled while queued for a limiter token is "
+         "interrupted within 4 cycles, idle gaps longer than MAX_IDLE_TIME exercise worker pruning, and everything terminates "
+         "(deadlock / busy loop detection). Exploration level.")
 
 CHECKS["C15"] = dict(engine="threads-portal", ref="4 (Engine THREADS, C15)",
     technique="deterministic simulation of real threads: baton-passing scheduler over caller threads, the portal's loop thread "
-              "and the main thread, virtual-time loop; future cancellations, portal stops and context exits injected at seeded "
-              "scheduling points",
+              "and the main thread (seeded choice at every yield point and, in 40% of the cases, at sys.settrace line events "
+              "inside anyio/from_thread.py in every thread, the loop thread included), virtual-time loop; future cancellations, "
+              "portal stops and context exits injected at seeded scheduling points",
     text="Real BlockingPortal / start_blocking_portal with real caller threads; the scheduler owns every interleaving (yield "
          "points at loop iterations, call_soon_threadsafe, Future.result, thread start/join, loop.close) and reports 'all threads "
          "parked' as a hung call. 1-4 caller threads x 1-5 operations (call, start_task_soon with immediate/late future.cancel, "
-         "start_task with started / failure / no started, wrap_async_context_manager, stop with/without cancel_remaining), portal "
+         "start_task with started / failure / no started, a callable ending with a cancellation of its own, "
+         "wrap_async_context_manager, stop with/without cancel_remaining, graceful then forced stop), portal "
          "inline in anyio.run or in its own thread, main thread leaving early or with an exception. Oracles: every callable runs "
          "in the loop thread exactly once (0 only if refused or cancelled before it started), value / exception / start value "
          "identity, cancelling a future interrupts exactly that task, calls issued after stop() returned are refused, leaving the "
-         "context returns only when no portal task is running, nobody is left hanging. Exploration level.")
+         "context returns only when no portal task is running, the portal's own task group never fails (portal_crashed), nobody "
+         "is left hanging. Exploration level.")
 
 NOT_YET = "check not built yet in this snapshot of /verif (work in progress; see DESIGN.md section 4 for the plan)"
 
